@@ -25,3 +25,8 @@ CLAIMED["C05"] = (
  "static analysis: CFG reachability/dominance rules on the proxy loops (verdict edge cannot reach the forwarding call within one iteration), verdict-propagation rule, return-value rules on the censor chain and its handlers, never-after rule for the pending-query queue, sibling rule over the pattern matchers",
  "Decides that on both proxies the firewall's error edge cannot reach the call that forwards the packet before the next packet is read and that the client is answered, that every handleQueryPacket verdict is propagated to the loop, that AcraCensor.HandleQuery returns handler errors as is / stops on the first allow / rejects unparseable statements unless tolerated, that Allow/Deny consult all three rule kinds and DenyAll/AllowAll are constant, that no pending-response entry is queued for an unsent statement, and that every field-by-field pattern matcher can answer 'match'. Verdict invariance under formatting and pattern-language semantics depend on the parser and are not decided.",
  NOTE, "DESIGN.md §2 C05")
+
+CLAIMED["C14"] = (
+ "static analysis: demand-driven difference-constraint prover (ABCD style) over go/ssa with dominating-branch facts, callee summaries and closed-world caller guards, applied to every slice/index/allocation whose bound derives from a length field, a subtraction or a lossy conversion in the input-facing decoders; bounded-allocation rule; goroutine recovery rule; no-panic scan; decoder state rule",
+ "Decides for each of ~90 bound uses in the envelope, wire-protocol, token and codec decoders that the bound is proven in range from the conditions that dominate it (or is in the frozen, reasoned confirmed-table), that every input-sized allocation has a bound the sender does not control alone, that AcraServer's connection goroutines defer recoverConnection before running connection code, and that the decoders contain no explicit panic. Not decided: termination and memory of the SQL parser, scanner loop invariants (covered by the cursor-step rule of C01), invariants carried by struct fields (e.g. non-empty MySQL payloads), YAML/ASN.1 library internals.",
+ NOTE, "DESIGN.md §2 C14, §1 E1")
